@@ -14,3 +14,9 @@ Theorem C18_frame_valid : forall os o data, opts_after os = Some o -> modern o -
   frame_spec Decoded true (frame_encode o data) = Some (data, len (frame_encode o data)).
 Proof. exact encode_spec_opts. Qed.
 Print Assumptions C18_frame_valid.
+(* a source whose k-th Read call fails, for EVERY k: what was delivered is a prefix of the frame, every
+   call returns nil / the injected error / io.EOF after the whole frame, the error is passed through
+   by the Read during which the source failed, and the source is never asked again *)
+From LZ4V Require Import ReaderSpec2 CReaderFaultSpec CReaderFaultProofs.
+Theorem C18_source_fault : creader_fault_stmt.  Proof. exact creader_fault. Qed.
+Print Assumptions C18_source_fault.
